@@ -701,4 +701,68 @@ theorem addJacAff_valid (Q : JacPoint) (R : Point) (hQ : JValid p c Q) (hR : AVa
 
 end Refine
 
+/-! ## `mod_inv_var` (`pow(a, -1, m)`): correct from the extended-Euclid invariant -/
+section ModInv
+open Btc.EC
+
+/-- Bézout invariant, read in `ZMod n`: the returned pair satisfies `g = a·x`. -/
+theorem xgcdAux_cast {n : ℕ} (a : ZMod n) : ∀ (fuel : ℕ) (r0 r1 x0 x1 : ℤ),
+    (r0 : ZMod n) = a * x0 → (r1 : ZMod n) = a * x1 →
+    ((xgcdAux fuel r0 r1 x0 x1).1 : ZMod n) = a * ((xgcdAux fuel r0 r1 x0 x1).2 : ZMod n)
+  | 0, r0, r1, x0, x1, h0, _ => by simpa [xgcdAux] using h0
+  | fuel + 1, r0, r1, x0, x1, h0, h1 => by
+    rw [xgcdAux]
+    by_cases hr : r1 = 0
+    · simpa [hr] using h0
+    · simp only [hr, if_false]
+      apply xgcdAux_cast a fuel _ _ _ _ h1
+      push_cast
+      rw [h0, h1]; ring
+
+/-- with enough fuel the first component is the gcd -/
+theorem xgcdAux_gcd : ∀ (fuel : ℕ) (r0 r1 x0 x1 : ℤ), 0 ≤ r0 → 0 ≤ r1 → r1 < fuel →
+    (xgcdAux fuel r0 r1 x0 x1).1 = (Int.gcd r0 r1 : ℤ)
+  | 0, r0, r1, x0, x1, _, h1, hf => by omega
+  | fuel + 1, r0, r1, x0, x1, h0, h1, hf => by
+    rw [xgcdAux]
+    by_cases hr : r1 = 0
+    · simp only [hr, if_true, Int.gcd_zero_right]
+      omega
+    · simp only [hr, if_false]
+      have hpos : 0 < r1 := by omega
+      have hmod : r0 - r0 / r1 * r1 = r0 % r1 := by rw [Int.emod_def]; ring
+      have hb0 : 0 ≤ r0 % r1 := Int.emod_nonneg _ hr
+      have hb1 : r0 % r1 < r1 := Int.emod_lt_of_pos _ hpos
+      rw [xgcdAux_gcd fuel r1 (r0 - r0 / r1 * r1) _ _ h1 (by rw [hmod]; exact hb0)
+        (by rw [hmod]; omega), Int.gcd_sub_mul_right_right, Int.gcd_comm]
+
+/-- T9 (one direction, every modulus `n ≥ 1`, every integer `a`): when `gcd a n = 1`, `modInv`
+returns the reduced inverse. -/
+theorem modInv_spec {n : ℕ} (hn : 1 ≤ n) (a : ℤ) (hg : Int.gcd a n = 1) :
+    ∃ x, modInv a n = some x ∧ 0 ≤ x ∧ x < n ∧ ((a : ZMod n) * (x : ZMod n) = 1) := by
+  have hn' : ¬ ((n : ℤ) < 1) := by omega
+  have hnz : (n : ℤ) ≠ 0 := by omega
+  have hg1 : (xgcdAux ((n : ℤ).toNat + 2) (a % n) n 1 0).1 = 1 := by
+    rw [xgcdAux_gcd _ _ _ _ _ (Int.emod_nonneg _ hnz) (by omega) (by simp), Int.gcd_emod, hg]
+    rfl
+  have hc := xgcdAux_cast (n := n) (a : ZMod n) ((n : ℤ).toNat + 2) (a % n) n 1 0
+    (by rw [ZMod.intCast_mod]; simp) (by simp)
+  rw [hg1] at hc
+  refine ⟨(xgcdAux ((n : ℤ).toNat + 2) (a % n) n 1 0).2 % n, ?_, Int.emod_nonneg _ hnz,
+    Int.emod_lt_of_pos _ (by omega), ?_⟩
+  · simp only [modInv, hn', if_false]
+    rw [if_pos hg1]
+  · rw [ZMod.intCast_mod, ← hc]; simp
+
+/-- in a prime field every nonzero residue is inverted -/
+theorem modInv_prime {p : ℕ} [hpf : Fact p.Prime] (a : ℤ) (ha : (a : ZMod p) ≠ 0) :
+    ∃ x, modInv a p = some x ∧ 0 ≤ x ∧ x < p ∧ ((a : ZMod p) * (x : ZMod p) = 1) := by
+  apply modInv_spec hpf.out.one_le
+  rw [Int.gcd_comm, Int.gcd_eq_natAbs, Int.natAbs_natCast]
+  apply (Nat.Prime.coprime_iff_not_dvd hpf.out).mpr
+  intro hd
+  exact ha ((ZMod.intCast_zmod_eq_zero_iff_dvd a p).mpr (Int.natCast_dvd.mpr hd))
+
+end ModInv
+
 end Btc.C01
